@@ -619,6 +619,9 @@ func (p *parser) parseEscape(opts CharsetOptions, standalone bool) charset {
 					return nil
 				}
 				r = r<<4 + d
+				if r > unicode.MaxRune {
+					r = unicode.MaxRune + 1 // too large (rejected below), do not overflow
+				}
 				p.next()
 				if p.ch == '}' {
 					break
@@ -633,6 +636,9 @@ func (p *parser) parseEscape(opts CharsetOptions, standalone bool) charset {
 					return nil
 				}
 				r = r<<4 + d
+				if r > unicode.MaxRune {
+					r = unicode.MaxRune + 1 // too large (rejected below), do not overflow
+				}
 				p.next()
 			}
 		}
